@@ -45,6 +45,18 @@ type Arr3 [3]int
 
 func (a *Arr3) Set(i, v int) { a[i] = v }
 
+type Bytes []byte
+
+func (b Bytes) Set(i int, v byte) { b[i] = v }
+func (b Bytes) Swap(i, j int)     { b[i], b[j] = b[j], b[i] }
+func (b *Bytes) SetP(i int, v byte) { (*b)[i] = v }
+
+type Runes []rune
+
+func (r Runes) Set(i int, v rune) { r[i] = v }
+func (r Runes) Swap(i, j int)     { r[i], r[j] = r[j], r[i] }
+func (r *Runes) SetP(i int, v rune) { (*r)[i] = v }
+
 type Twin struct {
 	V    int
 	Tags []string
@@ -130,6 +142,8 @@ var (
 	GStr    []string
 	GFl     []float64
 	GScores Scores
+	GBytes  []byte
+	GRunes  []rune
 	priv *T
 	ptrs []*T
 	resets int
@@ -163,6 +177,8 @@ func reset() {
 	GStr = []string{"c", "a", "b"}
 	GFl = []float64{3.5, 1.5, 2.5}
 	GScores = Scores{30, 10, 20}
+	GBytes = []byte("hello")
+	GRunes = []rune("world")
 	priv = mk(400)
 	ptrs = []*T{mk(500), mk(600)}
 }
@@ -186,6 +202,8 @@ func GetPtrs() []*T            { return ptrs }
 func GetStrs() []string        { return GStr }
 func GetFloats() []float64     { return GFl }
 func GetScores() Scores        { return GScores }
+func GetBytes() []byte         { return GBytes }
+func GetRunes() []rune         { return GRunes }
 func (t *T) Peek() int         { return t.N }
 func (t *T) Self() *T          { return t }
 func (t *T) Slice() []int      { return t.Sl }
@@ -277,6 +295,12 @@ func TouchNC() {
 	for i := range GScores {
 		GScores[i] = GScores[i]
 	}
+	for i := range GBytes {
+		GBytes[i] = GBytes[i]
+	}
+	for i := range GRunes {
+		GRunes[i] = GRunes[i]
+	}
 	if t, ok := GAny.(*T); ok {
 		touchT(t)
 	}
@@ -344,7 +368,7 @@ func Dump() string {
 	for _, f := range GFl {
 		s += lib.Itoa(int(f*10)) + ","
 	}
-	s += "]\nGScores=" + dumpInts([]int(GScores))
+	s += "]\nGScores=" + dumpInts([]int(GScores)) + "\nGBytes=" + string(GBytes) + "\nGRunes=" + string(GRunes)
 	s += "\npriv=" + dumpT(priv)
 	for i, p := range ptrs {
 		s += "\nptrs" + lib.Itoa(i) + "=" + dumpT(p)
